@@ -24,6 +24,11 @@ Theorem C39_greedy_is_collapsed_argmax : forall m : list row,
   /\ (forall r, In r m -> r <> [] -> is_max_index r (argmax_row r)).
 Proof. exact greedy_is_collapsed_argmax. Qed.
 
+(* (1') the loop itself, for ANY sequence of per-frame labels (whatever tie-break chose them) *)
+Theorem C39_greedy_loop_is_collapse : forall labs : list nat,
+  greedy_loop 0 0 labs = collapse_pos labs /\ map fst (collapse_pos labs) = collapse labs.
+Proof. exact (fun labs => conj (greedy_loop_is_collapse_pos labs) (collapse_pos_labels labs)). Qed.
+
 (* (2) what "position of first occurrence" means for the specification collapse_pos *)
 Theorem C39_greedy_positions_first : forall labs l p,
   In (l, p) (collapse_pos labs) ->
